@@ -113,6 +113,10 @@ let eval_stream (stream : string) (case : string) (impl : string) : verdict =
     let same = if List.for_all (fun t -> t = first) ts then "same" else "differs" in
     ignore m;
     { model = (if icls ^ " " ^ same = m then impl else m); fails }
+  | "conn05" -> let (model, fails) = Conn_o.eval ["C05"] case impl in { model; fails }
+  | "conn07" -> let (model, fails) = Conn_o.eval ["C07"] case impl in { model; fails }
+  | "conn09" -> let (model, fails) = Conn_o.eval ["C09"] case impl in { model; fails }
+  | "conn10" -> let (model, fails) = Conn_o.eval ["C10"] case impl in { model; fails }
   | "clientread" -> let (model, fails) = Parse_o.eval_clientread case impl in { model; fails }
   | "body" -> let (model, fails) = Body_o.eval case impl in { model; fails }
   | s -> failwith ("unknown stream " ^ s)
